@@ -167,8 +167,16 @@ func runC01(tier string, seed uint64, o *Out) error {
 		t := int64(1000) + int64(rng.Intn(int(2*size)))
 		slotEnd := (t/size + 1) * size
 		id := int64(0)
+		nS := 0
 		for len(ops) < 5+rng.Intn(25) {
-			if rng.Intn(4) == 0 && id > 0 {
+			if i%8 == 0 && id > 0 && nS < 2 && rng.Intn(5) == 0 && t < slotEnd {
+				// the row's clock reading lies in the current slot; the ticker fires before Add has returned
+				nS++
+				id++
+				ops = append(ops, wop{kind: 'S', id: id, ts: t})
+				t = slotEnd + int64(rng.Intn(int(size)/2+1))
+				slotEnd += size
+			} else if rng.Intn(4) == 0 && id > 0 {
 				if t < slotEnd { // the ticker fires no earlier than the slot's end
 					t = slotEnd + int64(rng.Intn(int(size)/2+1))
 				}
@@ -178,6 +186,9 @@ func runC01(tier string, seed uint64, o *Out) error {
 				id++
 				t += int64(rng.Intn(int(size)/2 + 2))
 				ops = append(ops, wop{kind: 'A', id: id, ts: t})
+				if id == 1 { // the first row opens the slot that contains its clock reading
+					slotEnd = (t/size + 1) * size
+				}
 			}
 		}
 		obs := runWin(w, ops, false)
